@@ -44,4 +44,69 @@ for _p in sorted(_glob.glob(_os.path.join(_os.path.dirname(_os.path.abspath(__fi
     _f = _os.path.basename(_p)
     MODULES.append((_SPECIAL.get(_f, "src/lib.rs"), _f))
 
-PROPERTY_META = {}
+
+_KANI_NOTE = ("Trusted: Kani 0.68 MIR->goto translation, CBMC 6.11 bit-precise semantics and the CaDiCaL answer; the spec library /verif/spec "
+              "(exact dyadic decode + posit rule as a predicate over (n+1)-bit midpoints) as the meaning of 'correctly rounded'; rustc for the "
+              "native replay. Loops are unwound to the word width with unwinding assertions on (complete for these loops, and the termination bound).")
+
+PROPERTY_META = {
+ "C01": dict(level="proof",
+   text="Postcondition `op_ok` (exact real result rounded by the posit rule, NaR/zero clauses) on the real add/sub/mul/div of P8E0, P16E1, P32E2, "
+        "discharged by Kani over all 2^16/2^32/2^64 operand pairs: monolithic for P8, P16 and P32 mul; P32 add/sub by an exhaustive 2-way split on the "
+        "sign relation (thorough tier); P16/P32 div modularly against the contract of the integer divider, which is proved on the mechanically "
+        "extracted real text of crate::div/lldiv by Verus together with the quotient lemmas. Leaf contracts (separate_bits_tmp, calculate_regime) "
+        "are woven as kani::requires/ensures attributes and checked at every call site.",
+   note=_KANI_NOTE + " Quick tier does not run the P32 add/sub halves (thorough: ~45 min); the modular div proof assumes the ghost stub is a faithful "
+        "transcription of the divider contract (same text, proved by Verus) and Rust's definition of / and % on non-negative operands.",
+   assumptions=["ghost stubs for crate::div / crate::lldiv transcribe the contract proved by Verus (lemmas/div_lemmas.rs)",
+                "operator-trait spellings are covered under C17"]),
+ "C02": dict(level="proof",
+   text="Postcondition from_f32_ok/from_f64_ok (posit-rule rounding of the float's exact value, +-0 -> 0, NaN/inf -> NaR) on the six real "
+        "from_f32/from_f64 functions over all 2^32 / 2^64 bit patterns, plus from_f32(x) == from_f64(x as f64); discharged monolithically by Kani.",
+   note=_KANI_NOTE + " CBMC's IEEE model for `as f64` widening and f32/f64 transmutes.", assumptions=[]),
+ "C03": dict(level="proof",
+   text="Postconditions on to_f64/to_f32 (bit pattern of the result decodes to exactly the posit's value; IEEE RNE for P32 to_f32) and the "
+        "posit -> f64 -> posit round trip for every bit pattern, discharged by Kani. The Display/FromStr text round trip is reduced to the f64 round "
+        "trip plus the assumed std contract that f64 Display/parse round-trips (core::fmt / dec2flt are out of CBMC's reach).",
+   note=_KANI_NOTE + " ASSUMED (not checked): Rust's `{}` formatting of f64 followed by str::parse::<f64>() returns the same f64 (NaN to NaN).",
+   assumptions=["std contract: f64 -> Display string -> parse::<f64>() is the identity on non-NaN values and maps NaN to NaN (text half of C03)"]),
+ "C04": dict(level="proof",
+   text="Quire as a data structure with abstract view (two's-complement integer / 2^F): step contracts on the private fdp / fdp_one over an ARBITRARY "
+        "pre-state (NaR absorbing; zero product = frame on all bits; otherwise new = old +- exact product on all bits when in range), to_posit = single "
+        "posit-rule rounding of the view over all 2^32 / 2^128 / 2^512 states, is_zero/is_nar/clear/from_bits/to_bits; the history part (any sequence, "
+        "any order) follows by induction over the step contract (integer addition commutes) and a direct 2-step commutation obligation. Discharged by Kani.",
+   note=_KANI_NOTE + " Q32 fdp / fdp_one step obligations (577 free bits) run in the thorough tier only. The induction over histories is a two-line "
+        "paper argument over the mechanically proved step contracts. linalg::quire_dot is not under contract.",
+   assumptions=["induction over operation histories from the per-step contract is done on paper", "tuple/array spellings are C17 obligations"]),
+ "C05": dict(level="proof",
+   text="Postcondition fma_ok(op) (exact +-a*b+-c in wide fixed point, rounded once) on mul_add / mul_sub / sub_product: P8 over all 2^24 triples "
+        "(quick), P16 over all 2^48 (thorough), P32 by an exhaustive 2-way split on the sign relation (thorough, hours).",
+   note=_KANI_NOTE + " P32 halves may exceed their time budget; an undischarged half is reported as undecided (exit 2), never as a violation.",
+   assumptions=[]),
+ "C06": dict(level="proof",
+   text="Postcondition sqrt_ok (mid_lo^2 <= a <= mid_hi^2 form of the posit rule; NaR for negative/NaR, 0 for 0) on P8E0::sqrt and P16E1::sqrt over all "
+        "inputs by Kani. P32E2::sqrt: SAT does not close the postcondition (seven 64-bit products); Kani proves totality and the NaR/zero clauses, and "
+        "the same contract is evaluated natively on all 2^32 inputs (exhaustive enumeration, labelled as such, not counted as proved).",
+   note=_KANI_NOTE + " P32 sqrt postcondition: exhaustive native evaluation over 2^32 inputs (complete, but enumeration by execution).",
+   assumptions=["P32E2::sqrt value clause is decided by exhaustive native evaluation of the contract, not by the verifier"]),
+ "C07": dict(level="proof",
+   text="Postconditions from_int_ok / to_int_ok / to_uint_ok on every from_{i8..usize,u8..usize} and to_{i32,u32,i64,u64} of the three types over "
+        "all integers / all posit patterns (NaR excluded for to_*), plus agreement of the From/Into impls; discharged monolithically by Kani.",
+   note=_KANI_NOTE, assumptions=["isize/usize are 64-bit on the verified target"]),
+ "C08": dict(level="proof",
+   text="Postcondition convert_ok (widening exact, narrowing = posit-rule rounding, 0/NaR preserved) on the six from_p* functions over all source "
+        "patterns, plus widen-then-narrow identity and From agreement; Kani.", note=_KANI_NOTE, assumptions=[]),
+ "C09": dict(level="proof",
+   text="Postconditions intfn_ok(mode) / fract_ok on round, floor, ceil, trunc, fract of the three types over all inputs: the result decodes to "
+        "exactly the required integer (or exactly x - trunc(x)); Kani.", note=_KANI_NOTE, assumptions=[]),
+ "C10": dict(level="proof",
+   text="Postconditions over decoded values on eq/cmp/lt/le/gt/ge (and derived PartialEq/Ord), min, max, clamp (requires min <= max), neg, abs, signum, "
+        "copysign, is_* and classify for all operand pairs/triples; results must be one of the inputs or an exact constant; Kani.",
+   note=_KANI_NOTE + " clamp's documented precondition min <= max is a `requires`; sign of NaR is left unconstrained for is_sign_*/copysign.",
+   assumptions=[]),
+ "C12": dict(level="proof",
+   text="Posit -> quire -> posit identity for every posit; neg = two's complement of the whole image for every non-NaR state (a superset of the "
+        "reachable states); clear; from_bits/to_bits inverse; into_two_posits / into_three_posits = round(s), round(s - p1), round(s - p1 - p2) with "
+        "exact subtractions, over all 2^32 / 2^128 states (Q32 split: thorough); Kani.",
+   note=_KANI_NOTE + " 'Reachable states' is over-approximated by all non-NaR states.", assumptions=[]),
+}
